@@ -14,12 +14,12 @@ TRUSTED_BASE = [
 
 # components whose real code keeps package-level state (marshaller pools): one case at a time per
 # process; the check script shards them over processes instead of goroutines
-SERIAL = {"pipeline": 8, "pipefault": 8, "marshal": 4}
+SERIAL = {"pipeline": 8, "pipefault": 8, "marshal": 4, "syscorr": 8}
 
 PROPS = {
     "C01": {
         "modules": ["PgBifrost.Props.C01"],
-        "components": ["ledger", "batcher", "pipeline", "kinesis", "s3", "rabbit", "kafka"],
+        "components": ["ledger", "batcher", "pipeline", "syscorr", "kinesis", "s3", "rabbit", "kafka"],
         # layer L3: a worker reporting written without full acceptance by the sink is a C01 violation too
         "counts_from": {"C11": "written|accepted", "C12": "written", "C13": "written|confirm", "C14": "written"},
         "required_theorems": ["PgBifrost.Props.C01.ledger_emit_safe_partial", "PgBifrost.Props.C01.ledger_never_panics_partial",
@@ -37,7 +37,7 @@ PROPS = {
     },
     "C02": {
         "modules": ["PgBifrost.Props.C02"],
-        "components": ["ledger", "client", "batcher", "pipeline"],
+        "components": ["ledger", "client", "batcher", "pipeline", "syscorr"],
         "required_theorems": ["PgBifrost.Props.C02.ledger_drains_partial", "PgBifrost.Props.C02.recovery_commit_closes_open_delivery",
                               "PgBifrost.Props.C02.sys_quiesces"],
         "partial": "ledger layer proved under NoStale (finding F1 makes the full statement false). Client error recovery: "
@@ -61,7 +61,7 @@ PROPS = {
     },
     "C04": {
         "modules": ["PgBifrost.Props.C04"],
-        "components": ["batcher", "batch", "filter", "partitioner", "marshal", "pipeline"],
+        "components": ["batcher", "batch", "filter", "partitioner", "marshal", "pipeline", "syscorr"],
         "required_theorems": ["PgBifrost.Props.C04.batcher_partition_faithful", "PgBifrost.Props.C04.batch_single_key",
                               "PgBifrost.Props.C04.batch_txns_exact", "PgBifrost.Props.C04.txns_global_accounting",
                               "PgBifrost.Props.C04.batcher_never_dead", "PgBifrost.Props.C04.sys_exactly_once",
